@@ -111,4 +111,90 @@ theorem file_run_independent (lim : Nat) (wd : WD) (bs : List (List Ev)) :
 
 example : fileRun 2 none [[⟨0, [65, 65, 65], []⟩], [⟨0, [66], []⟩]] = [[65, 65, 65, 10], [66, 10]] := by decide
 
+/-! ### splitting a request that is too large (elasticsearch and http, `split_batch`) -/
+
+/-- what reached the server for good: the bodies of the accepted requests, and of the requests
+    the server refused with 413 although they carried a single event (such an event cannot be
+    delivered by any splitting) -/
+def deliveredBytes (reqs : List Req) : Bytes := delivered reqs
+
+/-- the split recursion over the begin table of any batch never panics (index / slice bounds)
+    and never needs more fuel than the number of events -/
+theorem split_never_panics (frame : Ev → Bytes) (lim : Nat) (wd : WD) (batch : List Ev) (sc : List Nat) :
+    let a := buildAcc frame lim wd batch
+    ∃ res, sendSplit a.count 0 a.count (a.begin ++ [a.buf.data.length]) a.buf.data sc = .ok res := by
+  intro a
+  have h := buildAcc_spec frame lim wd batch
+  simp only [a]
+  rw [h.2.2, h.1, h.2.1]
+  have := split_ok ((deliverable batch).map frame) (deliverable batch).length 0 (deliverable batch).length sc
+    (Nat.zero_le _) (by simp) (by simp)
+  simpa using this
+
+/-- **split covers once** (full statement; false of the code before the fix, see
+    `split_old_counterexample`). For EVERY script of server answers: if the attempt ends in a
+    state `out` commits (no error, or 413), then the accepted requests together with the
+    single events refused with 413 concatenate to the whole payload: every event once, in order,
+    nothing skipped, nothing repeated. -/
+theorem split_covers_once (frame : Ev → Bytes) (lim : Nat) (wd : WD) (batch : List Ev) (sc : List Nat) (res : SR) :
+    let a := buildAcc frame lim wd batch
+    sendSplit a.count 0 a.count (a.begin ++ [a.buf.data.length]) a.buf.data sc = .ok res →
+    (res.err = false ∨ res.code = 413) →
+    deliveredBytes res.reqs = a.buf.data := by
+  intro a hs hgood
+  have h := buildAcc_spec frame lim wd batch
+  simp only [a] at hs ⊢
+  rw [h.2.2, h.1, h.2.1] at hs
+  rw [h.1]
+  have := split_covers ((deliverable batch).map frame) (deliverable batch).length 0 (deliverable batch).length sc res
+    (Nat.zero_le _) (by simp) (by simp) hs hgood
+  have hseg : seg ((deliverable batch).map frame) 0 (deliverable batch).length = (deliverable batch).map frame := by
+    simp [seg, List.take_of_length_le]
+  rw [hseg] at this
+  exact this
+
+/-- **split covers once, partial form**: when no single event is itself rejected, the
+    successful requests alone concatenate to the whole payload -/
+theorem split_covers_once_partial (frame : Ev → Bytes) (lim : Nat) (wd : WD) (batch : List Ev) (sc : List Nat) (res : SR)
+    (hno : ∀ q ∈ res.reqs, q.n = 1 → q.status ≠ 413) :
+    let a := buildAcc frame lim wd batch
+    sendSplit a.count 0 a.count (a.begin ++ [a.buf.data.length]) a.buf.data sc = .ok res →
+    (res.err = false ∨ res.code = 413) →
+    (res.reqs.filter (fun q => isOkStatus q.status)).flatMap (·.body) = a.buf.data := by
+  intro a hs hgood
+  have := split_covers_once frame lim wd batch sc res hs hgood
+  rw [← this]
+  simp only [deliveredBytes, delivered]
+  congr 1
+  apply List.filter_congr
+  intro q hq
+  by_cases h1 : q.n = 1
+  · have := hno q hq h1
+    simp [this]
+  · simp [h1]
+
+/-- the statement `split_covers_once` makes, about the recursion as it was before the fix -/
+def SplitCoversOnceOld : Prop :=
+  ∀ (fs : List Bytes) (sc : List Nat) (res : SR),
+    sendSplitOld fs.length 0 fs.length (offs 0 fs) fs.flatten sc = .ok res →
+    (res.err = false ∨ res.code = 413) → deliveredBytes res.reqs = fs.flatten
+
+/-- before the fix: two events, the whole request and then the first event alone answered 413:
+    the recursion stopped, the second event was never sent, yet `out` committed the batch
+    (replayed on the implementation: corpus/C19/split-single-413-http.case) -/
+theorem split_old_counterexample : ¬ SplitCoversOnceOld := by
+  intro h
+  have := h [[1], [2]] [413, 413] ⟨413, true, [], [⟨413, [1, 2], 2⟩, ⟨413, [1], 1⟩]⟩ rfl (Or.inr rfl)
+  revert this
+  decide
+
+/-- the same witness through the fixed recursion: the second event is sent -/
+example : sendSplit 2 0 2 (offs 0 [[1], [2]]) [1, 2] [413, 413]
+    = .ok ⟨413, true, [], [⟨413, [1, 2], 2⟩, ⟨413, [1], 1⟩, ⟨200, [2], 1⟩]⟩ := by rfl
+
+/-- non-vacuity of `split_covers_once`: three events, whole request refused, first half refused,
+    the rest accepted -/
+example : (sendSplit 3 0 3 (offs 0 [[1], [2], [3]]) [1, 2, 3] [413, 413, 200]).toOption.map
+      (fun r => (r.err, r.code, deliveredBytes r.reqs)) = some (true, 413, [1, 2, 3]) := by rfl
+
 end FileD.PropsC19
